@@ -46,7 +46,7 @@ TraceInit ==
 MutOps   == {"Insert", "Delete"}
 QueryOps == {"Search", "All", "Backward", "Min", "Max", "TopK", "BottomK", "Range", "RangeC",
              "Prefix", "Iter", "Dump", "Size"}
-EnvOps   == {"GC", "Scribble", "Arena", "Checkpoint", "Note"}
+EnvOps   == {"GC", "Scribble", "Arena", "Checkpoint", "Note", "Same"}
 KnownOps == MutOps \cup QueryOps \cup EnvOps \cup {"new", "clear", "reset", "Batch", "Pre"}
 
 (* ops: sequence of <<"I", k, v>> / <<"D", k, 0>> *)
@@ -113,7 +113,7 @@ TraceNext ==
                                                empty |-> IF e.phase = "empty" THEN e.heap ELSE @.empty]]
             /\ pre' = Snapshot(e.t)
             /\ UNCHANGED <<m, uni, kd, dgs>>
-       [] e.op \in {"GC", "Scribble", "Arena", "Note"} ->
+       [] e.op \in {"GC", "Scribble", "Arena", "Note", "Same"} ->
             \* environment steps: stuttering for every tree
             /\ pre' = pre
             /\ UNCHANGED <<m, uni, kd, dgs, base>>
@@ -221,7 +221,11 @@ C12(e) == (Good(e) /\ e.op = "Delete" /\ Present(M) = {}) => e.dg = dgs[Cur.t].e
 Inv_C12 == Each(C12)
 
 (* C13 - caller memory untouched by a call *)
-Inv_C13 == (Started /\ Cur.op = "Arena") => Cur.before = Cur.after
+(* ... and ("Same" lines) a sequence yields the same whether or not the caller reused the buffers of its arguments *)
+(* after the call had returned (x: arguments kept intact, y: buffers overwritten before the sequence was ranged over) *)
+Inv_C13 ==
+  /\ (Started /\ Cur.op = "Arena") => Cur.before = Cur.after
+  /\ (Started /\ Cur.op = "Same") => Cur.x = Cur.y
 
 (* C14 - abandon and re-iterate *)
 FullKeys(e) ==
